@@ -5,6 +5,8 @@
 From VD Require Import Base.Words Model.Layout Model.Queue Extract.QueueIO Extract.QueueMon Extract.OwningIO Extract.MmioIO Model.PciBus Extract.PciBusIO Extract.PciIO Model.Blk Extract.BlkIO Model.Console Extract.ConsoleIO Extract.ConfigIO Extract.NetIO Extract.ConnMgrIO Extract.VsockIO Extract.InitIO Model.Gpu Extract.GpuIO Extract.MiscIO Model.Sound Extract.SoundIO Model.Input Extract.InputIO.
 (* C09: required without Import (qualified use below), so that its short names shadow nothing here *)
 From VD Require Extract.TeardownIO.
+(* C11 / C13, x86-64 hypercall PCI transport: required without Import as well *)
+From VD Require Model.HypPci Extract.HypPciIO.
 
 Inductive mstate :=
 | MNone
@@ -21,7 +23,8 @@ Inductive mstate :=
 | MGpu (g : option gstate)
 | MMisc (q : option qstate)
 | MPci (t : option Model.Pci.ptrans)
-| MInput (i : option istate).
+| MInput (i : option istate)
+| MHyp (t : option HypPci.htrans).
 
 Definition bad : list N := [77777].
 
@@ -29,7 +32,7 @@ Definition bad : list N := [77777].
 Definition is_diag (k : N) : bool := (k =? 140).
 
 Definition is_monitor (k : N) : bool :=
-  (k =? 1) || (k =? 2) || (k =? 612) || (k =? 613) || ((150 <=? k) && (k <? 170)) || (k =? 1950) || (k =? 1951) || (k =? 1952) || mmio_is_monitor k || pci_is_monitor k || blk_is_monitor k || console_is_monitor k || config_is_monitor k || net_is_monitor k || connmgr_is_monitor k || vsock_is_monitor k || TeardownIO.teardown_is_monitor k || init_is_monitor k || gpu_is_monitor k || misc_is_monitor k || pcit_is_monitor k || sound_is_monitor k || input_is_monitor k.
+  (k =? 1) || (k =? 2) || (k =? 612) || (k =? 613) || ((150 <=? k) && (k <? 170)) || (k =? 1950) || (k =? 1951) || (k =? 1952) || mmio_is_monitor k || pci_is_monitor k || blk_is_monitor k || console_is_monitor k || config_is_monitor k || net_is_monitor k || connmgr_is_monitor k || vsock_is_monitor k || TeardownIO.teardown_is_monitor k || init_is_monitor k || gpu_is_monitor k || misc_is_monitor k || pcit_is_monitor k || sound_is_monitor k || input_is_monitor k || HypPciIO.hyp_is_monitor k.
 
 Definition dir_reads (d : N) : bool := (d =? 0) || (d =? 2).
 Definition dir_writes (d : N) : bool := (d =? 1) || (d =? 2).
@@ -63,6 +66,10 @@ Definition step (st : mstate) (k : N) (ins : list N) : mstate * list N :=
   if (1000 <=? k) && (k <? 1100) then (st, mmio_step k ins) else
   (* ---- C08: initialisation handshake and feature gating (kinds 800..899) ---- *)
   if (800 <=? k) && (k <? 900) then (st, init_step k ins) else
+  (* ---- C11 / C13: x86-64 pKVM hypercall PCI transport (kinds 1130..1199, 1360..1398) ---- *)
+  if HypPciIO.hyp_kind k then
+    (let t := match st with MHyp t => t | _ => None end in
+     let '(t', o) := HypPciIO.hyp_step t k ins in (MHyp t', o)) else
   (* ---- virtqueue core (C01-C05, C07, C19) ---- *)
   if k =? 100 then
     match ins with
